@@ -370,6 +370,10 @@ Domain classify(const Snapshot &s, const FreeSpace &fs, double sideMargin) {
     }
     if (s.ph(c) != fs.rowHeight) d.singleRowOnly = false;
   }
+  if (ok && !d.magnitudeOk) {
+    ok = false;
+    why << "outside the supported magnitude range;";
+  }
   d.c01 = ok;
   d.c01Why = why.str();
   if (!ok) d.singleRowOnly = false;
@@ -409,6 +413,10 @@ Domain classify(const Snapshot &s, const FreeSpace &fs, double sideMargin) {
       ok6 = false;
       why6 << "every free segment is removed by the side margin;";
     }
+  }
+  if (ok6 && !d.magnitudeOk) {
+    ok6 = false;
+    why6 << "outside the supported magnitude range;";
   }
   d.c06 = ok6;
   d.c06Why = why6.str();
